@@ -1,6 +1,7 @@
-(* C17/Model.v — attribute converters, as coded.
+(* C17/Model.v — attribute converters, as coded NOW (after repairs 16472e5d and 09ff19a1 of
+   ava_from; the earlier behaviours are kept as the *_v0 / *_v1 definitions at the end of this file).
    Mirrors src/saml2/attribute_converter.py: AttributeConverter.from_dict (248-268),
-   adjust (238-246), to_ (426-453) with to_eptid_value (455-488), ava_from (305-340),
+   adjust (238-246), to_ (428-455) with to_eptid_value (457-490), ava_from (305-342),
    lcd_ava_from (270-279), list_to_local / to_local (108-162), from_local (165-172);
    s_utils.do_ava (307-327) for lists of str; saml.AttributeType_.__init__ (NameFormat
    defaults to ...:uri when an Attribute object is built) and
@@ -22,6 +23,7 @@ Definition NAME_FORMAT_URI := "urn:oasis:names:tc:SAML:2.0:attrname-format:uri".
 Definition NAMEID_FORMAT_PERSISTENT := "urn:oasis:names:tc:SAML:2.0:nameid-format:persistent".
 Definition EPTID_OID := "urn:oid:1.3.6.1.4.1.5923.1.1.1.10".
 Definition EPTID_LOCAL := "eduPersonTargetedID".
+Definition EPTID_LOCAL_LC := "edupersontargetedid".
 
 (* ---------------------------------------------------------------- dictionaries *)
 Fixpoint lookup {A} (k : string) (d : list (string * A)) : option A :=
@@ -107,11 +109,21 @@ Definition from_local (acs : list conv) (a : list (string * list string)) (f : s
 (* ---------------------------------------------------------------- wire -> local *)
 Inductive res := Ok (k : string) (vs : list lval) | KeyErr | AttrErr.
 
-Definition recv_val (attr : string) (v : wval) : lval :=
+(* attr.lower() == "edupersontargetedid" *)
+Definition eptid_name (attr : string) : bool := String.eqb (lower attr) EPTID_LOCAL_LC.
+
+(* ava_from, per AttributeValue (since 16472e5d and 09ff19a1): a NameID element gives
+   (ex.text or "").strip() when the local name is eduPersonTargetedID up to case OR the attribute's
+   wire name is the eduPersonTargetedID OID ((attribute.name or "").strip() == OID, the mirror image
+   of the test in to_()); otherwise the dict {"NameID": {attributes that are set, "value": text if any}} *)
+Definition eptid_wire (wn : option string) : bool :=
+  match wn with Some n => String.eqb (strip n) EPTID_OID | None => false end.
+
+Definition recv_val (attr : string) (wn : option string) (v : wval) : lval :=
   match v with
   | WText s => LStr (strip s)
   | WNameID attrs s =>
-      if String.eqb attr EPTID_LOCAL && negb (is_empty s) then LStr (strip s)
+      if eptid_name attr || eptid_wire wn then LStr (strip s)
       else LNameID (attrs ++ (if is_empty s then [] else [("value", strip s)]))%list
   end.
 
@@ -119,12 +131,12 @@ Definition ava_from (m : conv) (w : wattr) : res :=
   match wname w with
   | Some n =>
       match lookup (lower (strip n)) (fro m) with
-      | Some a => Ok a (map (recv_val a) (wvals w))
+      | Some a => Ok a (map (recv_val a (wname w)) (wvals w))
       | None => KeyErr
       end
   | None =>
       match wfriendly w with
-      | Some f => let a := lower (strip f) in Ok a (map (recv_val a) (wvals w))
+      | Some f => let a := lower (strip f) in Ok a (map (recv_val a (wname w)) (wvals w))
       | None => AttrErr
       end
   end.
@@ -193,3 +205,83 @@ Definition roundtrip (acs : list conv) (a : list (string * list string)) (f : st
   | Some ws => Some (to_local acs allow (if xml then map harvest ws else ws))
   | None => None
   end.
+
+(* ---------------------------------------------------------------- earlier versions of ava_from
+   v0 (before 16472e5d): the NameID was unwrapped only `if attr == "eduPersonTargetedID" and ex.text`:
+      not for an empty text and not for a local name spelled differently (adjust() lower-cases the
+      local names of one-directional maps) — finding C17-F2;
+   v1 (16472e5d .. 09ff19a1): `if attr.lower() == "edupersontargetedid" and ex.c_tag == "NameID"`:
+      not for a map that gives the OID another local name — finding C17-F3.
+   Kept to state what the repairs changed.  The chain below is the one above with the
+   per-value function as a parameter. *)
+Definition recv_val_v0 (attr : string) (v : wval) : lval :=
+  match v with
+  | WText s => LStr (strip s)
+  | WNameID attrs s =>
+      if String.eqb attr EPTID_LOCAL && negb (is_empty s) then LStr (strip s)
+      else LNameID (attrs ++ (if is_empty s then [] else [("value", strip s)]))%list
+  end.
+
+Definition recv_val_v1 (attr : string) (v : wval) : lval :=
+  match v with
+  | WText s => LStr (strip s)
+  | WNameID attrs s =>
+      if eptid_name attr then LStr (strip s)
+      else LNameID (attrs ++ (if is_empty s then [] else [("value", strip s)]))%list
+  end.
+
+Section Older.
+  Variable rv : string -> wval -> lval.
+
+  Definition ava_from_with (m : conv) (w : wattr) : res :=
+    match wname w with
+    | Some n =>
+        match lookup (lower (strip n)) (fro m) with
+        | Some a => Ok a (map (rv a) (wvals w))
+        | None => KeyErr
+        end
+    | None =>
+        match wfriendly w with
+        | Some f => let a := lower (strip f) in Ok a (map (rv a) (wvals w))
+        | None => AttrErr
+        end
+    end.
+
+  Definition resolve_with (acs : list conv) (allow : bool) (w : wattr) : option (string * list lval) :=
+    let first :=
+      match wnf w with
+      | Some f =>
+          match receiver acs f with
+          | Some m => Some (ava_from_with m w)
+          | None => if String.eqb f NAME_FORMAT_UNSPECIFIED || allow then Some (lcd w) else None
+          end
+      | None => if allow then Some (lcd w) else None
+      end in
+    match first with
+    | None => None
+    | Some (Ok k vs) => Some (k, vs)
+    | Some KeyErr =>
+        if allow then match lcd w with Ok k vs => Some (k, vs) | _ => None end else None
+    | Some AttrErr => None
+    end.
+
+  Definition step_with (acs : list conv) (allow : bool) (a : ava) (w : wattr) : ava :=
+    match resolve_with acs allow w with
+    | Some (k, vs) => ext k vs a
+    | None => a
+    end.
+
+  Definition to_local_with (acs : list conv) (allow : bool) (ws : list wattr) : ava :=
+    fold_left (step_with acs allow) ws [].
+
+  Definition roundtrip_with (acs : list conv) (a : list (string * list string)) (f : string) (allow xml : bool) : option ava :=
+    match from_local acs a f with
+    | Some ws => Some (to_local_with acs allow (if xml then map harvest ws else ws))
+    | None => None
+    end.
+End Older.
+
+Definition to_local_v0 := to_local_with recv_val_v0.
+Definition roundtrip_v0 := roundtrip_with recv_val_v0.
+Definition to_local_v1 := to_local_with recv_val_v1.
+Definition roundtrip_v1 := roundtrip_with recv_val_v1.
